@@ -70,6 +70,45 @@ Proof.
 Qed.
 Print Assumptions c09_total.
 
+(* THE COMPOSITION, column properties included (Model/Table.v).  c09_total
+   speaks of tables whose columns carry no property; here the history may also
+   set alignment and skipable values - on any column number, existing or not,
+   to any value (nil, a non-boolean skipable) - at any point between the
+   building calls.  The view is well-formed and every renderer is total on it,
+   exactly as above. *)
+From Tab Require Import Model.Table Spec.TableHist Proofs.E2EProofs.
+
+Theorem c09_total_table :
+  forall (W : bytes -> nat) (e : Cell.env) (json : Cell.item -> option bytes) (strenc : bytes -> bytes)
+         (h : list top),
+  twf_hist h ->
+  let v := hview W e json h in
+  wf_view v
+  /\ render_string (csv_render v) <> Panic
+  /\ render_string (Markdown.md_render W v) <> Panic
+  /\ render_string (Json.json_render strenc v) <> Panic
+  /\ (forall d, TextLayout.dec_ok d -> render_string (Text.text_render W d v) <> Panic)
+  /\ (forall d, Decoration.is_empty_decoration d = true -> render_string (Text.text_render W d v) = Ok ([], true))
+  /\ (forall id cls cap have rcs, HtmlProofs.rc_fit (Html.mkHtmlIn id cls cap have rcs v) ->
+        exists out, render_string (Html.html_render (Html.mkHtmlIn id cls cap have rcs v)) = Ok (out, false)).
+Proof.
+  intros W e json strenc h Hwf v.
+  assert (Hv : wf_view v) by (apply hview_wf; exact Hwf).
+  split; [exact Hv|].
+  split; [apply c09_render_string_no_panic, csv_no_panic|].
+  split; [apply c09_render_string_no_panic, MarkdownProofs.md_no_panic, Hv|].
+  split; [apply c09_render_string_no_panic, JsonErrProofs.json_no_panic, Hv|].
+  split.
+  { intros d Hd. apply c09_render_string_no_panic, TextZero.text_no_panic_all; try assumption.
+    apply hview_cells_ok. }
+  split.
+  { intros d Hd. rewrite (TextProps.empty_decoration_err_proof W d v Hd). reflexivity. }
+  intros id cls cap have rcs Hfit.
+  destruct (HtmlProofs.html_no_panic _ Hfit) as (r & Hr).
+  exists (fst r). unfold Html.html_render. rewrite Hr. reflexivity.
+Qed.
+Print Assumptions c09_total_table.
+
 (* Beyond single-table histories.  A row can be made longer than its table is
    wide (a *Row attached to a second table and then extended: the second table
    learns of the column, the first does not), so the view a renderer sees need
